@@ -146,6 +146,8 @@ impl ShmWriter {
 
         #[cfg(feature = "verif-hooks")]
         crate::verif::point("new.done", 0, 0, 0);
+        #[cfg(feature = "verif-hooks")]
+        crate::verif::writer_created();
         Ok(writer)
     }
 
@@ -384,6 +386,8 @@ impl Drop for ShmWriter {
         if self.segsize == 0 {
             return;
         }
+        #[cfg(feature = "verif-hooks")]
+        crate::verif::writer_dropped();
         unsafe {
             nix::sys::mman::munmap(self.addr, self.segsize).expect("munmap");
         }
